@@ -71,9 +71,9 @@ class Ob:
             if m is not None:
                 for d in m.decls():
                     nm = d.name()
-                    if nm in ("x0", "xend", "h0", "max_step") or nm.startswith("lh_"):
-                        ex[nm] = str(m[d])[:40]
-            self.failed.append((desc, p.label(), ex, path_script(p)))
+                    if nm in ("x0", "xend", "h0", "max_step", "first_step") or nm.startswith(("lh_", "te")) or (nm[0] == "x" and nm[1:].isdigit()):
+                        ex[nm] = str(m[d])[:60]
+            self.failed.append((desc, p.label(), ex, p.script() if hasattr(p, "script") else path_script(p)))
             return False
         self.unknown.append(desc + " [path " + p.label() + "]")
         return None
@@ -135,7 +135,7 @@ def c18_counters(method, backward=False):
     def unit(tier="quick", seed=0):
         t0 = time.time()
         ob = Ob(f"c18_counters_{method.lower()}" + ("_back" if backward else ""))
-        paths, gen_s = paths_for(method, "body", backward, True)
+        paths, gen_s = paths_for(method, "body", backward, True, flags_symbolic=False)
         ob.paths = len(paths)
         for p in paths:
             if p.outcome[0] == "panic":
@@ -183,7 +183,7 @@ def c03_times(method, backward=False, with_max_step=True):
         t0 = time.time()
         nm = f"c03_times_{method.lower()}" + ("_back" if backward else "") + ("" if with_max_step else "_nomax")
         ob = Ob(nm)
-        paths, gen_s = paths_for(method, "body", backward, with_max_step)
+        paths, gen_s = paths_for(method, "body", backward, with_max_step, flags_symbolic=False)
         ob.paths = len(paths)
         inv_facts = INV[method][1]
         for p in paths:
@@ -395,7 +395,7 @@ def c11_budget(method, backward=False):
     def unit(tier="quick", seed=0):
         t0 = time.time()
         ob = Ob(f"c11_budget_{method.lower()}" + ("_back" if backward else ""))
-        paths, gen_s = paths_for(method, "body", backward, True)
+        paths, gen_s = paths_for(method, "body", backward, True, flags_symbolic=False)
         ob.paths = len(paths)
         n_budget = 0
         for p in paths:
